@@ -7,6 +7,33 @@ COMMON_ASSUME = [
 ]
 
 PROPS = {
+    "C03": {
+        "stages": [{"bin": "mem"},
+                   {"kind": "sanitizer", "tool": "asan", "tiers": ["quick", "thorough"]},
+                   {"kind": "sanitizer", "tool": "miri", "tiers": ["thorough"]},
+                   {"kind": "sanitizer", "tool": "memcheck", "tiers": ["thorough"]}],
+        "rule": "shadow-buffer monitor: the array is a view (steps, reversed / permuted axes, offset) into a larger parent buffer whose other cells hold guard values; the parent is snapshotted bit for bit before the call and compared after: guard cells identical, every lane holds the same multiset of (unique) cell values, erroring calls change nothing, a second ArcArray handle is unchanged. Routines: partition_mut / get_from_sorted_mut / get_many_from_sorted_mut / quantile_mut / quantiles_mut on one lane of an n-D array (all other lanes must stay bit-identical), quantile_axis_mut / quantiles_axis_mut (valid and invalid q), quantile_axis_skipnan_mut, map_axis_skipnan_mut with a closure that rewrites its lane, remove_nan_mut over all masks up to length 8; element types Tracked (unique ids), f32, f64, Option<u8,i32,i64,N64>; 1..4 dims, every axis, 5 pivot policies. distinct = hash of (routine, shape, axis, layout, data); non-trivial = lane length >= 2.",
+        "exhaustive": False,
+        "assumptions": COMMON_ASSUME + ["writes outside the parent buffer are invisible to the shadow monitor; they are the business of the ASan / Miri / memcheck stages"],
+    },
+    "C04": {
+        "stages": [{"bin": "mem"},
+                   {"kind": "sanitizer", "tool": "miri", "tiers": ["quick", "thorough"]},
+                   {"kind": "sanitizer", "tool": "asan", "tiers": ["quick", "thorough"]},
+                   {"kind": "sanitizer", "tool": "memcheck", "tiers": ["thorough"]}],
+        "rule": "exhaustive part: ALL missing/non-missing masks of length 0..10 x 18 (stride, offset) pairs with strides {1,2,3,-1,-2,-3} x 14 element types (f32, f64, Option of u8..u128, i8..i128, N32, N64); each (type, mask, layout) is one distinct case, counted exactly (length >= 2 = non-trivial). Monitors per call: returned length == number of non-missing inputs; every element ADDRESS of the returned view is an element address of the argument view (checked before anything is read through it); no missing value in the view's memory (read as the underlying type from the parent buffer); multiset == non-missing inputs; iteration through the NotNan-typed view yields the same values; lane multiset incl. missing values and guard cells unchanged; determinism (two identical inputs, same view); idempotence (second application leaves the sequence unchanged); is_nan / try_as_not_nan agree with the representation. Random part: masks of length 11..70, strides up to +-7; lanes handed out by map_axis_skipnan_mut along every axis of 1..3-D zoo arrays (address set of the handed-out view must lie inside exactly one lane).",
+        "exhaustive": True,
+        "exhaustive_bound": {"quick": "all masks of length <= 10 x 18 stride/offset pairs x 14 element types", "thorough": "same, plus 200k longer random masks and 600k n-D lane cases"},
+        "assumptions": COMMON_ASSUME + ["behaviour depends only on the missing/non-missing pattern (stated in the property)"],
+    },
+    "C14": {
+        "stages": [{"bin": "mem"},
+                   {"kind": "sanitizer", "tool": "asan", "tiers": ["quick", "thorough"]},
+                   {"kind": "sanitizer", "tool": "miri", "tiers": ["thorough"]}],
+        "rule": "reference = the statement's own definition: the harness deletes the missing values from the logical snapshot itself and (a) scans the rest independently, (b) calls the crate's plain routine on an owned contiguous copy of the filtered data. Operations: min/max_skipnan, argmin/argmax_skipnan (index designates a position of the original array holding the value; EmptyInput iff nothing is left), fold_skipnan / visit_skipnan / indexed_fold_skipnan (multiset of (index,) value == filtered multiset), fold_axis_skipnan and map_axis_skipnan_mut (per lane, each lane exactly once, result at the lane's logical index), quantile_axis_skipnan_mut vs quantile_mut on the filtered lane (all 5 strategies, q on / between indices). Types f32, f64, Option<i32,u8,i64,N64>; masks none / all / first-only / last-only / random / ties; 1..3 dims, every axis, zoo layouts, 5 pivot policies. distinct = hash of (type, shape, axis, layout, data bits); non-trivial = >= 2 elements.",
+        "exhaustive": False,
+        "assumptions": COMMON_ASSUME,
+    },
     "C01": {
         "stages": [{"bin": "quant"}],
         "rule": "random part: element types i8,u8,i16,i32,i64,u64,usize,N32,N64 (round robin); 1..4 dims, every axis, lane length 1..40 (1-D to 300), zoo layouts (steps, reversed, permuted axes, offset in a guarded parent), static and dynamic dimensionality; contents: tiny alphabets (heavy ties), constant, sorted, reversed, organ pipe, type extremes, wide random; q in {0, 1, k/(N-1) and its float neighbours, (k+.5)/(N-1) and neighbours, up to 8 ulps around, 5e-324, 1-2^-53, uniform}; all five strategies; entry points quantile(s)_axis_mut and quantile(s)_mut; every case executed 3 times under different pivot policies (determinism). Oracle: sort the lane, index pair and fraction in two readings (f64 product and exact rational product, exact dyadic arithmetic), strategy-specific acceptance. distinct = hash of (type, shape, axis, layout, entry, strategy, q bits, data bits), non-trivial = lane length >= 2 and >= 1 q. Exhaustive part: all weak-order patterns of length <= 4 (5 thorough) x q grid x 5 strategies x ALL pivot sequences for i32, u8, N64.",
@@ -52,6 +79,24 @@ SANITIZER_STAGES = {}
 
 _EXPL = "exploration: the real code is executed and every execution is judged by an independent oracle; "
 MANIFEST_TEXT = {
+    "C03": {
+        "technique": "runtime monitoring: shadow-buffer monitor (bit snapshot of the parent allocation before/after, guard cells, per-lane multisets of unique cells) around every mutating routine; AddressSanitizer / Miri / memcheck on the same driver for writes outside the buffer",
+        "level_text": _EXPL + "what is observed is the raw parent buffer, read by the harness's own index arithmetic, not through ndarray iterators.",
+        "level_note": "trusted: the harness's logical-index map (self-checked against ndarray at construction); cells are unique so movement between lanes is visible even among ties",
+        "design_ref": "DESIGN.md section 3 C03",
+    },
+    "C04": {
+        "technique": "runtime monitoring: address-subset + raw-memory monitors over all missing-value masks up to length 10 for 14 element types and 18 stride/offset layouts, plus Miri / AddressSanitizer / valgrind memcheck runs of the same driver",
+        "level_text": _EXPL + "complete for the stated mask bound; the sanitizer stages see what return values cannot (out-of-bounds, dangling, invalid references, unreachable_unchecked reached).",
+        "level_note": "trusted: pointer arithmetic of the harness (addresses compared before any read through the returned view, so the monitor cannot commit the UB it looks for)",
+        "design_ref": "DESIGN.md section 3 C04",
+    },
+    "C14": {
+        "technique": "runtime monitoring: differential monitor filter-then-plain-routine (the property's own definition) plus an independent scan, over executions of the real skip-NaN routines",
+        "level_text": _EXPL + "both sides are executed on every generated case; equality is bit-exact.",
+        "level_note": "trusted: the plain routines are judged by C01/C05, here they serve as the reference the statement names",
+        "design_ref": "DESIGN.md section 3 C14",
+    },
     "C01": {
         "technique": "runtime monitoring: reference-model oracle (sort + exact dyadic arithmetic for index/fraction/interpolation) over executions of the real quantile code; determinism monitor across pivot policies; all pivot sequences for short lanes",
         "level_text": _EXPL + "seeded generation over element types, dimensionalities, axes, layouts, q classes around every index boundary and all strategies, plus complete pivot-sequence enumeration for lanes up to length 4/5.",
